@@ -66,9 +66,10 @@ type loopObj struct {
 	peerPC    *net.UDPConn       // packet peer
 	path      string
 	closed    bool
-	rxOff     int  // bytes the peer has written so far (position of the next byte)
-	rxDone    int  // bytes handed to the application by completed reads
-	peerGone  bool // the peer closed, shut down or reset its end
+	rxOff     int    // bytes the peer has written so far (position of the next byte)
+	rxDone    int    // bytes handed to the application by completed reads
+	shared    []byte // samebuf=1: the one buffer every read of this object uses
+	peerGone  bool   // the peer closed, shut down or reset its end
 	accepted  []sonic.Conn
 	peerConns []net.Conn
 }
@@ -355,6 +356,12 @@ func (lw *loopWorld) exec(f []string) {
 			}
 		}
 		b := make([]byte, n)
+		if _, same := attr(f, "samebuf"); same && isRead {
+			if len(lw.objs[k].shared) != n {
+				lw.objs[k].shared = make([]byte, n)
+			}
+			b = lw.objs[k].shared
+		}
 		lw.keep = append(lw.keep, b)
 		if !isRead {
 			for j := range b {
@@ -458,6 +465,10 @@ func (lw *loopWorld) exec(f []string) {
 		lw.ev("call %s d=%d", strings.Join(f, " "), lw.depth)
 		ticks := atoi(f[3])
 		delay := time.Duration(ticks) * loopTick
+		if v, ok := attr(f, "ns"); ok {
+			// a delay given in nanoseconds (below one tick, below one microsecond): still a positive delay
+			delay = time.Duration(atoi(v))
+		}
 		op := &loopOp{obj: k, kind: "timer", rep: f[2] == "rep", t0: time.Now(), delay: delay}
 		lw.ops[id] = op
 		last := op.t0
@@ -520,6 +531,13 @@ func (lw *loopWorld) exec(f []string) {
 		lw.ev("call %s d=%d", strings.Join(f, " "), lw.depth)
 		lw.ops[id] = &loopOp{obj: k, kind: "read"}
 		b := make([]byte, n)
+		if _, same := attr(f, "samebuf"); same {
+			// the application's one receive buffer, handed to every read of this object (with a callback of its own each time)
+			if len(lw.objs[k].shared) != n {
+				lw.objs[k].shared = make([]byte, n)
+			}
+			b = lw.objs[k].shared
+		}
 		lw.keep = append(lw.keep, b)
 		re := lw.chainNext(f)
 		o := lw.objs[k]
@@ -1917,6 +1935,20 @@ func loopEnum(args []string, w *bufio.Writer) {
 			"peer 1 send 8", "poll", "pending")
 		emit("obj 1 "+kind, "prog 12 peer 1 steal", "recvfrom 1 16 op=11", "post op=12", "peer 1 send 0", "poll", "pending", "peer 1 send 8", "poll", "poll", "pending")
 	}
+	// 5f. one receive buffer for every read of an object, a new callback each time (what an application with a single packet buffer
+	// does): each callback belongs to its own read
+	for _, kind := range []string{"packet", "mpeer"} {
+		emit("obj 1 "+kind, "recvfrom 1 16 op=11 samebuf=1", "peer 1 send 8", "poll", "recvfrom 1 16 op=12 samebuf=1", "peer 1 send 4", "poll", "recvfrom 1 16 op=13 samebuf=1", "peer 1 send 6", "poll", "pending")
+		emit("obj 1 "+kind, "setdisp 32", "peer 1 send 8", "recvfrom 1 16 op=11 samebuf=1", "setdisp 0", "poll", "setdisp 32", "peer 1 send 4", "recvfrom 1 16 op=12 samebuf=1", "setdisp 0", "poll", "pending")
+	}
+	for _, kind := range []string{"tcp", "fifo", "adapter"} {
+		emit("obj 1 "+kind, "read 1 16 op=11 samebuf=1", "peer 1 write 8", "poll", "read 1 16 op=12 samebuf=1", "peer 1 write 4", "poll", "readall 1 16 op=13 samebuf=1", "peer 1 write 16", "poll", "pending")
+	}
+	// delays below a microsecond / a tick are delays: the timer fires
+	for _, ns := range []string{"1", "500", "999", "1500", "999999"} {
+		emit("obj 1 timer", "sched 1 once 1 ns="+ns+" op=11", "sleep 1", "poll", "pending", "scheduled 1")
+		emit("obj 1 timer", "sched 1 rep 1 ns="+ns+" op=11", "sleep 1", "poll", "sleep 1", "poll", "tcancel 1", "pending")
+	}
 	// 5e. datagram sockets with a read in flight and a write parked at the dispatch limit, both ready in one event: each completes
 	for _, kind := range []string{"mpeer", "packet"} {
 		emit("obj 1 "+kind, "recvfrom 1 16 op=11", "setdisp 32", "sendto 1 8 op=12", "setdisp 0", "pending", "peer 1 send 8", "poll", "pending", "poll", "peer 1 recv", "pending")
@@ -1974,6 +2006,13 @@ func loopEnum(args []string, w *bufio.Writer) {
 	for _, kind := range []string{"fifo", "tcp"} {
 		emit("obj 1 "+kind, "read 1 8 op=11", "pending", "sabotage 1", "write 1 8 op=12", "pending", "close 1", "pending", "obj 2 timer", "sched 2 once 1 op=13", "runpending", "pending")
 		emit("obj 1 "+kind, "sabotage 1", "read 1 8 op=11", "write 1 8 op=12", "pending", "cancel 1", "pending", "close 1", "pending")
+		if kind == "tcp" {
+			// both directions parked, then the descriptor is closed underneath: Close / Cancel drop both, whatever epoll_ctl says
+			for _, end := range []string{"close 1", "cancel 1"} {
+				emit("obj 1 tcp", "read 1 8 op=11", "setdisp 32", "write 1 5 op=12", "setdisp 0", "pending", "sabotage 1", end, "pending", "obj 2 timer", "sched 2 once 1 op=13", "runpending", "pending")
+				emit("obj 1 tcp", "read 1 8 op=11", "writeall 1 400000 op=12", "pending", "sabotage 1", end, "pending", "obj 2 timer", "sched 2 once 1 op=13", "runpending", "pending")
+			}
+		}
 		// de-registration fails (the kernel no longer knows the descriptor): the operation is over all the same
 		emit("obj 1 "+kind, "read 1 8 op=11", "sabotage 1", "cancel 1", "pending", "cancel 1", "pending", "close 1", "cancel 1", "pending", "poll", "pending")
 		emit("obj 1 "+kind, "read 1 8 op=11", "sabotage 1", "close 1", "pending", "cancel 1", "poll", "pending")
